@@ -1,6 +1,6 @@
 """C15 — operators keep a valid changelog and compute incrementally what batch computes.
 Single-input operators (filter, map, distinct, event-time buffer, group by with every trigger) through props/gb.py; joins
-and order by through props/joins.py / props/orderby.py (added as they are built)."""
+through props/joins.py; order by (OrderSensitiveTransform), limit, lookup join and unnest through gb.run_ext."""
 import json
 import props.gb as gb
 
@@ -10,13 +10,14 @@ LEVEL = "model_checking"
 def run(ctx):
     gb.run_basic(ctx, "C15")
     gb.run_groupby(ctx, "C15")
+    gb.run_ext(ctx, "C15")
     try:
         import props.joins as joins
         joins.run_joins(ctx, "C15")
     except ImportError:
         ctx.notes["joins"] = "not built yet"
     ctx.coverage["rule"] = ("every valid input changelog (additions/retractions/watermarks, late and zero-time records included) up to MaxLen over small "
-                            "universes, per operator configuration (filter, map x2, distinct, event-time buffer, group by x10 trigger configurations), plus "
+                            "universes, per operator configuration (filter, map x2, distinct, event-time buffer, group by x10 trigger configurations, order by x4, limit x3, lookup join, unnest; stream and outer joins under every schedule), plus "
                             "seeded random long changelogs; each is run on the real node and the trace validated by TLC: the output never retracts an absent "
                             "row (every prefix) and its consolidation equals the operator applied to the consolidated input at end of stream. "
                             "distinct_nontrivial = traces validated")
